@@ -29,6 +29,11 @@ pub enum FaultPlan {
     TransientAt(u64, FaultErr),
     /// Every fallible reader operation from the k-th on fails (the storage died).
     StickyFrom(u64, FaultErr),
+    /// Flaky storage: from the k-th operation on, every `period`-th operation fails
+    /// (k, k+period, k+2*period, ...); the operations in between succeed.
+    Periodic(u64, u64, FaultErr),
+    /// An outage that heals: operations k .. k+len fail, later ones succeed again.
+    Burst(u64, u64, FaultErr),
 }
 
 impl FaultPlan {
@@ -39,6 +44,10 @@ impl FaultPlan {
             FaultPlan::TransientAt(_, FaultErr::Eof) => "transient_eof",
             FaultPlan::StickyFrom(_, FaultErr::Io) => "sticky_io",
             FaultPlan::StickyFrom(_, FaultErr::Eof) => "sticky_eof",
+            FaultPlan::Periodic(_, _, FaultErr::Io) => "periodic_io",
+            FaultPlan::Periodic(_, _, FaultErr::Eof) => "periodic_eof",
+            FaultPlan::Burst(_, _, FaultErr::Io) => "burst_io",
+            FaultPlan::Burst(_, _, FaultErr::Eof) => "burst_eof",
         }
     }
     pub fn to_vec(&self) -> Vec<i64> {
@@ -46,6 +55,8 @@ impl FaultPlan {
             FaultPlan::None => vec![0],
             FaultPlan::TransientAt(k, e) => vec![1, k as i64, (e == FaultErr::Eof) as i64],
             FaultPlan::StickyFrom(k, e) => vec![2, k as i64, (e == FaultErr::Eof) as i64],
+            FaultPlan::Periodic(k, p, e) => vec![3, k as i64, (e == FaultErr::Eof) as i64, p as i64],
+            FaultPlan::Burst(k, n, e) => vec![4, k as i64, (e == FaultErr::Eof) as i64, n as i64],
         }
     }
     pub fn from_vec(v: &[i64]) -> FaultPlan {
@@ -53,6 +64,8 @@ impl FaultPlan {
         match v.first().copied().unwrap_or(0) {
             1 => FaultPlan::TransientAt(v[1] as u64, e(v[2])),
             2 => FaultPlan::StickyFrom(v[1] as u64, e(v[2])),
+            3 => FaultPlan::Periodic(v[1] as u64, (v.get(3).copied().unwrap_or(2) as u64).max(2), e(v[2])),
+            4 => FaultPlan::Burst(v[1] as u64, (v.get(3).copied().unwrap_or(1) as u64).max(1), e(v[2])),
             _ => FaultPlan::None,
         }
     }
@@ -78,6 +91,9 @@ pub struct SimState {
     pub aborted: Cell<Option<SimAbort>>,
     /// While set, `tick` is a no-op (used by the harness's own logging reads).
     muted: Cell<bool>,
+    /// When set, faults fire only for readers positioned inside this address range (one
+    /// stored section is bad, the others are fine). Time still counts every operation.
+    scope: Cell<Option<(u64, u64)>>,
 }
 
 impl SimState {
@@ -93,6 +109,7 @@ impl SimState {
             stack_budget: Cell::new(STACK_BUDGET_DEFAULT),
             aborted: Cell::new(None),
             muted: Cell::new(false),
+            scope: Cell::new(None),
         })
     }
 
@@ -100,6 +117,11 @@ impl SimState {
     pub fn arm(&self, plan: FaultPlan) {
         self.arm_base.set(self.ops.get());
         self.plan.set(plan);
+    }
+
+    /// Confine faults to readers whose position lies in `[lo, hi]` (addresses).
+    pub fn set_scope(&self, scope: Option<(u64, u64)>) {
+        self.scope.set(scope);
     }
 
     pub fn plan(&self) -> FaultPlan {
@@ -131,7 +153,7 @@ impl SimState {
     }
 
     #[inline]
-    fn tick(&self) -> Option<FaultErr> {
+    fn tick(&self, pos: impl FnOnce() -> u64) -> Option<FaultErr> {
         if self.muted.get() {
             return None;
         }
@@ -157,25 +179,22 @@ impl SimState {
             std::panic::panic_any(SimAbort::OpBudget);
         }
         let rel = t - self.arm_base.get();
-        match self.plan.get() {
+        let hit = match self.plan.get() {
             FaultPlan::None => None,
-            FaultPlan::TransientAt(k, e) => {
-                if rel == k {
-                    self.fired.set(self.fired.get() + 1);
-                    Some(e)
-                } else {
-                    None
-                }
-            }
-            FaultPlan::StickyFrom(k, e) => {
-                if rel >= k {
-                    self.fired.set(self.fired.get() + 1);
-                    Some(e)
-                } else {
-                    None
-                }
+            FaultPlan::TransientAt(k, e) => (rel == k).then_some(e),
+            FaultPlan::StickyFrom(k, e) => (rel >= k).then_some(e),
+            FaultPlan::Periodic(k, p, e) => (rel >= k && (rel - k) % p == 0).then_some(e),
+            FaultPlan::Burst(k, n, e) => (rel >= k && rel - k < n).then_some(e),
+        };
+        let e = hit?;
+        if let Some((lo, hi)) = self.scope.get() {
+            let p = pos();
+            if p < lo || p > hi {
+                return None;
             }
         }
+        self.fired.set(self.fired.get() + 1);
+        Some(e)
     }
 }
 
@@ -192,7 +211,7 @@ impl<R: Reader> FaultReader<R> {
 
     #[inline]
     fn gate(&self) -> Result<()> {
-        match self.sim.tick() {
+        match self.sim.tick(|| self.inner.offset_id().0) {
             None => Ok(()),
             Some(FaultErr::Io) => Err(Error::Io),
             Some(FaultErr::Eof) => Err(Error::UnexpectedEof(self.inner.offset_id())),
